@@ -540,7 +540,8 @@ def output(out: OutputBuffer, aconf: AuditConf, banner: Optional[Banner], header
         if client_audit:
             out.good('(gen) client IP: {}'.format(client_host), always_print=True)
         if len(header) > 0:
-            out.info('(gen) header: ' + '\n'.join(header))
+            # The peer controls these lines; like the banner, they are shown with everything outside printable ASCII replaced.
+            out.info('(gen) header: ' + '\n'.join(Utils.to_print_ascii(h) for h in header))
         if banner is not None:
             banner_line = '(gen) banner: {}'.format(banner)
             if sshv == 1 or banner.protocol[0] == 1:
